@@ -366,7 +366,10 @@ def step (st : St) (op impl : String) : St × StepOut :=
     if im.max ≠ maxSize then mism := mism ++ [s!"max:exp={maxSize} got={im.max}"]
     let errOK :=
       if pred.err ≠ "" then im.err == pred.err || (pred.err == "E:other" && im.err.startsWith "E:other")
-      else if c.live then im.err == "ok" || im.err == "timeout" || im.err.startsWith "E:other"
+      -- against the live server the dial goes on after the first flight (handshake, or PTO retransmissions when
+      -- the server cannot open the flight); its final outcome is outside the model as long as the whole
+      -- predicted flight was emitted first
+      else if c.live then im.err == "ok" || im.err == "timeout" || (im.err.startsWith "E:" && im.n ≥ pred.n)
       else im.err == "timeout"
     if !errOK then mism := mism ++ [s!"err:exp={if pred.err == "" then "none" else pred.err} got={im.err}"]
     if pred.err == "" ∧ im.n ≠ pred.n then mism := mism ++ [s!"n:exp={pred.n} got={im.n}"]
@@ -377,7 +380,7 @@ def step (st : St) (op impl : String) : St × StepOut :=
     -- ---------------- monitors (ghost: the spec of the op + the scripted stream only)
     let mut fails : List (String × String × String) := []
     let mut st := st
-    let judged := if pred.err ≠ "" ∨ im.err.startsWith "E:" then 0 else im.dgrams.size
+    let judged := if pred.err ≠ "" then 0 else if im.err.startsWith "E:" then min pred.n im.dgrams.size else im.dgrams.size
     let mut largest : Int := 0        -- a server's opener starts at 0 (quic-go) and tracks the largest opened
     let mut prevMinOff : Option Nat := none
     let mut prevPlanCrypto : Nat := 0
